@@ -13,6 +13,11 @@ static inline struct pair_pE_pE L0_uninitialized_move_n(E *f, int64_t cnt, E *d)
 static inline const E *L0_initializer_list_E__begin(const struct initializer_list_E *il) { return il->_M_array; }
 static inline const E *L0_initializer_list_E__end(const struct initializer_list_E *il) { return il->_M_array + il->_M_len; }
 #endif
+#if defined(HAVE_tuple_rpE_rb) && defined(HAVE_pair_pE_b)
+/* std::tie(it, flag) = pair: a tuple of references, assigned member-wise */
+static inline struct tuple_rpE_rb L0_tie__rpE_rb(E **a, _Bool *b) { struct tuple_rpE_rb t; t._0 = a; t._1 = b; return t; }
+static inline struct tuple_rpE_rb *L0_tuple_rpE_rb__op_assign__rpair_pE_b(struct tuple_rpE_rb *t, struct pair_pE_b p) { *t->_0 = p.first; *t->_1 = p.second; return t; }
+#endif
 #if defined(WITH_SETS) && defined(HAVE_GhostCmp)
 static inline _Bool L0_GhostCmp__call(const struct GhostCmp *c, const E *a, const E *b) { return l0_cmp(c->token, a, b); }
 static inline E *L0_lower_bound(const E *f, const E *l, const E *v, struct GhostCmp c) { return (E *)l0_bound(f, l, v, c.token, 0); }
